@@ -260,7 +260,12 @@ func cmdRun(args []string) int {
 			for i, c := range cs {
 				reqs[i] = twinReq{Harness: hr.Harness, Params: hr.Params, Vals: c.Vals}
 			}
-			outs, err := twin.RunBatch(reqs)
+			limit := 120
+			if id == "terminates-within-budget" {
+				limit = 20
+				reqs = reqs[:1]
+			}
+			outs, err := twin.RunBatchT(reqs, limit)
 			if err != nil {
 				continue
 			}
@@ -271,6 +276,8 @@ func cmdRun(args []string) int {
 				switch id {
 				case "no-panic":
 					ok = hasLine(lines, "PANIC") || hasLine(lines, "CRASH")
+				case "terminates-within-budget":
+					ok = hasLine(lines, "CRASH") // killed by the time limit
 				case "globals-unchanged":
 					ok = false
 				default:
@@ -457,7 +464,10 @@ func cmdReplay(args []string) int {
 		fmt.Println(" ", l)
 	}
 	fail := false
-	if rf.Assertion == "no-panic" {
+	if rf.Assertion == "terminates-within-budget" {
+		outs, _ = twin.RunBatchT([]twinReq{{Harness: rf.Harness, Params: rf.Params, Vals: rf.Vals}}, 20)
+		fail = hasLine(outs[0], "CRASH")
+	} else if rf.Assertion == "no-panic" {
 		fail = hasLine(outs[0], "PANIC") || hasLine(outs[0], "CRASH")
 	} else {
 		fail = hasLine(outs[0], "ASSERT-FAIL "+rf.Assertion)
